@@ -305,6 +305,9 @@ func ladder(kind, depth int) ref.Prog {
 
 func c01OneRoot(k *fw.K, p ref.Prog, vals []*ref.T, root int) bool {
 	what := fmt.Sprintf("root %d of %d", root, len(p))
+	if (k.Index+root)%7 == 3 {
+		refusedCalls(k)
+	}
 	var ts []tensor.Tensor
 	var err error
 	if pn := call(func() { ts, err = rt.Run(p[:root+1]) }); pn != nil || err != nil {
